@@ -30,7 +30,8 @@ Record batchobs := mkbatch { b_ids : list nat; b_start : nat; b_end : nat }. (* 
 Record opobs := mkop { p_nb : nat; p_guarded : bool; p_starts : nat; p_stops : nat }. (* after each script op *)
 
 (* stat.Metrics: what Execute received besides the tasks, and the StatReport written for it *)
-Record repobs := mkrep { r_drops : nat; r_dur_ms : Z; r_count : Z; r_rdrops : nat; r_sum_ms : Z }.
+Record repobs := mkrep { r_drops : nat; r_dur_ms : Z; r_count : Z; r_rdrops : nat; r_sum_ms : Z;
+                         r_written : bool (* a report writer was installed when the period was executed *) }.
 
 Record case := mkcase {
   c_chunk : bool;
@@ -254,8 +255,13 @@ Definition stat_ok (c : case) : bool :=
   if c_stat c then
     Nat.eqb (fold_right (fun r acc => (r_drops r + acc)%nat) 0%nat (c_reports c)) (c_drops c) &&
     all2 (fun b r =>
-            (r_dur_ms r =? sum_sizes c (b_ids b)) && (r_count r =? Z.of_nat (length (b_ids b))) &&
-            Nat.eqb (r_rdrops r) (r_drops r) && (r_sum_ms r =? r_dur_ms r)) (c_batches c) (c_reports c)
+            (* what Execute received is what was added: the duration is the sum over the period's tasks *)
+            (r_dur_ms r =? sum_sizes c (b_ids b)) &&
+            (* and, when a writer was installed, the period's report accounts for all of it *)
+            (if r_written r
+             then (r_count r =? Z.of_nat (length (b_ids b))) && Nat.eqb (r_rdrops r) (r_drops r) &&
+                  (r_sum_ms r =? r_dur_ms r)
+             else true)) (c_batches c) (c_reports c)
   else true.
 
 (* sequential scripts only: a batch that no tick and no explicit Flush/Wait accounts for (its execution does not
@@ -269,10 +275,26 @@ Definition threshold_ok (c : case) : bool :=
                     (if c_chunk c then c_max c <=? sum_sizes c (b_ids b)
                      else c_max c <=? Z.of_nat (length (b_ids b)))) (c_batches c).
 
+(* stat.Metrics (no threshold, hence no hand-over): an explicit Flush issued after everything else has come
+   to rest executes every task added before it -- also in scripts with concurrent phases *)
+Definition final_flush_ok (c : case) : bool :=
+  if c_stat c then
+    match rev (c_calls c) with
+    | k :: others =>
+        if negb (k_wait k) &&
+           forallb (fun a => returned a && Nat.ltb (a_ret a) (k_call k)) (c_adds c) &&
+           forallb (fun t => Nat.ltb (t_done t) (k_call k)) (c_ticks c) &&
+           forallb (fun k' => negb (Nat.eqb (k_ret k') 0) && Nat.ltb (k_ret k') (k_call k)) others
+        then forallb (fun a => executed_before c (a_id a) (k_ret k)) (c_adds c)
+        else true
+    | [] => true
+    end
+  else true.
+
 Definition small_spec_ok (c : case) : bool :=
   no_hang c && at_most_once c &&
   forallb (fun b => ordered c (b_ids b) && bound_ok c (b_ids b)) (c_batches c) &&
-  wait_ok c && stat_ok c &&
+  wait_ok c && stat_ok c && final_flush_ok c &&
   (if c_seq c then flush_ok c && ticks_ok c (c_ticks c) && threshold_ok c else true).
 
 (* ---------- sqlx.BulkInserter ---------- *)
